@@ -378,33 +378,46 @@ def concrete_playback(unit, log=None):
     rc, out, wall = run(cmd, cwd=REPO, timeout=max(unit.timeout, 600) + 900)
     if log is not None:
         log.append({"cmd": " ".join(cmd), "rc": rc, "wall_s": round(wall, 1)})
-    m = PLAYBACK_FN_RE.search(out)
-    if not m:
+    tests = PLAYBACK_FN_RE.findall(out)
+    if not tests:
         res["output"] = out[-4000:]
         return res
-    test_src, test_name = m.group(1), m.group(2)
-    res["test"] = test_src
-    # the generated test lists the concrete byte vectors with a comment giving the value
-    res["values"] = re.findall(r"//\s*(.+)\n\s*vec!\[([^\]]*)\]", test_src)
-    res["values"] = [{"value": v.strip(), "bytes": b.strip()} for v, b in res["values"]]
+    # Kani prints one test per failed check AND per satisfied cover; only some of them carry the failing
+    # input. Run them all natively and keep the one(s) that fail on the real code.
+    seen, uniq = set(), []
+    for src, name in tests:
+        if name not in seen:
+            seen.add(name)
+            uniq.append((src, name))
+
+    def values_of(src):
+        vs = re.findall(r"//\s*(.+)\n\s*vec!\[([^\]]*)\]", src)
+        return [{"value": v.strip(), "bytes": b.strip()} for v, b in vs]
+
+    res["test"] = uniq[0][0]
+    res["values"] = values_of(uniq[0][0])
     original = open(gen_file).read()
     try:
         with open(gen_file, "w") as f:
-            f.write(original + "\n" + test_src + "\n")
+            f.write(original + "\n" + "\n".join(src for src, _ in uniq) + "\n")
         env = env_offline()
         env["CARGO_TARGET_DIR"] = PLAYBACK_TARGET
         target = ["--lib"] if unit.crate == "trust_runtime" else ["--bin", CRATES[unit.crate]]
         cmd2 = ["cargo", "kani", "playback", "-p", CRATES[unit.crate], "--features", "verif"] + target + [
-                "-Z", "concrete-playback", "--", test_name]
+                "-Z", "concrete-playback", "--", "kani_concrete_playback_" + unit.fq.split("::")[-1]]
         rc2, out2, wall2 = run(cmd2, cwd=REPO, timeout=3600, env=env)
         if log is not None:
             log.append({"cmd": " ".join(cmd2), "rc": rc2, "wall_s": round(wall2, 1)})
         keep = [l for l in out2.split("\n") if not l.startswith("warning") and re.search(
             r"panicked|test result|FAILED|running \d+ test|^test |assertion|overflow|error", l)]
         res["output"] = "\n".join(keep)[-6000:]
-        if re.search(r"test result: FAILED|panicked at|\.\.\. FAILED", out2):
+        failing = [(src, name) for src, name in uniq if re.search(re.escape(name) + r" \.\.\. FAILED", out2)]
+        res["tests_run"] = len(uniq)
+        if failing:
             res["reproduced"] = True
-        elif re.search(r"test result: ok\. 1 passed", out2):
+            res["test"] = failing[0][0]
+            res["values"] = values_of(failing[0][0])
+        elif re.search(r"test result: ok\. \d+ passed", out2) and not re.search(r"test result: FAILED|panicked at", out2):
             res["reproduced"] = False
         else:
             res["reproduced"] = None
